@@ -10,7 +10,7 @@ Definition atom_slice_flow : flow := mkFlow (FCopy (FAtoms (FField OSelf SXyz)))
 Definition inplace_effects : effects :=
   mkEffects (FEnsure FArg) FNone
             (FCopy (FAtoms (FField OSelf SXyz))) FNone
-            FCentred (FSetter FArg) FKeep
+            FCentred (FSetter FArg) (FSetter FArg)
             true false false.
 
 (* each extracted term passes the checker, hence (FlowProofs.check_*_sound) denotes the model's operation *)
